@@ -200,12 +200,16 @@ def run(ctx):
 
                 sd = f"salt: {render_lit(Lit(s, s))} " if s is not None else ""
                 text = f'def md {{ {sd}splitters: uid return "a" weighted 1, "b" weighted 1 }}'
+                if i % 3 == 1:  # the splitter is also read by the routing
+                    text = f'def md {{ {sd}splitters: uid if uid != "__none__" {{ return "a" weighted 1, "b" weighted 1 }} else {{ return "a" weighted 1 }} }}'
                 c = im.construct(text)
                 evs.append((text, c[1] if c[0] == "ok" else None))
             if None in [e[1] for e in evs]:
                 ctx.violation("construct-failed", dict(texts=[e[0] for e in evs]), mechanism="C09/construct-failed")
                 continue
             units = [f"unit-{j}" if j % 2 else j for j in range(512)]
+            if i % 2:
+                units = [2**60 + j if j % 2 else 10**25 + j for j in range(512)]  # 64-bit and larger ids: neighbours are distinct units
             r1 = [im.call(evs[0][1], dict(uid=u)) for u in units]
             r2 = [im.call(evs[1][1], dict(uid=u)) for u in units]
             ctx.evaluated(1024)
